@@ -1,4 +1,9 @@
-"""Per-property configuration of the orchestrator (bin/verif)."""
+"""Per-property configuration of the orchestrator (bin/verif): one JSON file per property in
+props.d/ (keys: model, design_ref, level_text, level_note, technique?, trusted_base[], assumptions[],
+allowed_axioms[]?, harness_timeout{quick,thorough}?, widen?)."""
+import glob, json, os
+
+ROOT = os.path.dirname(os.path.dirname(os.path.abspath(__file__)))
 
 COMMON_TRUSTED = [
     "Coq 8.16.1 kernel (coqc); vm_compute used by the in-Coq correspondence evaluation and by *_refuted/Example witnesses; no native_compute",
@@ -7,21 +12,12 @@ COMMON_TRUSTED = [
     "Go harness generators/oracles and the Python orchestrator bin/verif",
 ]
 
-PROPS = {
-    "C17": {
-        "model": "coq/Model/Args.v (read_args: byte-at-a-time machine of varutil.ReadArguments; inject_args: argscope.InjectArgs/SeparateArgs)",
-        "design_ref": "DESIGN.md §6 C17",
-        "level_text": "Theorems over the byte-at-a-time model of ReadArguments for ALL byte strings / argument lists (totality, token round-trips for words, quoted, heredoc and continued arguments, stop-at-newline, InjectArgs numbering), kernel-checked, closed under the global context; the model is tied to the code by exhaustive (small alphabet) + random + structured differential evaluation inside Coq on every run.",
-        "level_note": "Trusted: Coq kernel + vm_compute; the hand-written model (tied by the correspondence check only); the Go harness and bytes.Reader. The reference quoting function is Model/Args.v quote.",
-        "trusted_base": ["bytes.Reader as the io.Reader (one byte per Read call is what ReadArguments asks for)"],
-        "assumptions": [
-            "the io.Reader delivers the bytes of the input in order and io.EOF at the end (bytes.Reader in the harness)",
-            "reference quoting function = Model/Args.v quote (each argument in double quotes, \" as \\\", backslash emitted outside the quotes as \\\\)",
-        ],
-    },
-}
+PROPS = {}
+for _p in sorted(glob.glob(os.path.join(ROOT, "props.d", "C*.json"))):
+    PROPS[os.path.basename(_p)[:-5]] = json.load(open(_p))
 
-HOOK_COMMITS = []
+# commits in /repo that add the build-tag-guarded hooks
+HOOK_COMMITS = ["2cc76a6", "245af10"]
 
-_WIP = "check not built yet in this round (work in progress; the property is applicable — see DESIGN.md §6)"
+_WIP = "check not built yet in this round (work in progress; the property is applicable - see DESIGN.md section 6)"
 NOT_BUILT = {("C%02d" % i): _WIP for i in range(1, 21)}
